@@ -175,6 +175,31 @@ def _numeric_value(val):
     return total
 
 
+def _check_volume_conditioning(ctx, vf):
+    """Nearly and exactly dependent pairs of vectors: the area is small or zero, never nan, and accurate.  A formula
+    that is algebraically the root of the Gram determinant but subtracts large squares (|a|^2 |b|^2 - (a.b)^2) passes
+    the symbolic comparison and loses every digit here."""
+    from ..accessors import AccessorEval, Raised
+    from ..symarr import NotSymbolic
+
+    for cell, want in (([[5.0, 0.0, 0.0], [5.0, 1e-7, 0.0]], 5e-7), ([[1.0, 0.0, 0.0], [1.0, 1e-9, 0.0]], 1e-9), ([[0.3, 0.6, 0.9], [0.1, 0.2, 0.3]], 0.0)):
+        try:
+            val = AccessorEval(ctx.prog, None).run_free(vf, [np.array(cell, dtype=float)], {})
+            try:
+                got = float(val.item() if isinstance(val, np.ndarray) else val)
+            except (TypeError, ValueError):
+                got = _numeric_value(val)
+        except Raised as exc:
+            ctx.violate("R3", f"volume() of the two vectors {cell} raises {exc.args[0]}", vf, vf.node, construct="volume two vectors: raises")
+            return
+        except NotSymbolic as exc:
+            raise AnalysisError(f"volume() is outside the evaluation whitelist on numbers: {exc}") from exc
+        if not (got == got) or abs(got - want) > max(1e-6 * want, 1e-12):
+            ctx.violate("R3", f"volume() of the nearly dependent vectors {cell} is {got!r}; the area is {want:g} (a formula that subtracts large squares loses all digits, or gives nan)", vf, vf.node, construct="volume two vectors: nearly dependent vectors")
+            return
+    ctx.ok("R3", "two nearly dependent and one exactly dependent pair of vectors: the area is accurate to 1e-6 (no cancellation, no nan)", vf.where)
+
+
 def _check_volume(ctx):
     """R3 by evaluation: volume() on symbolic cell vectors (one, two, three rows) returns the non-negative root of
     the Gram determinant det(A A^T) -- length, area, volume; orientation- and rotation-independent by construction --
@@ -184,6 +209,7 @@ def _check_volume(ctx):
 
     prog = ctx.prog
     vf = prog.func("iodata.utils.volume")
+    _check_volume_conditioning(ctx, vf)
     cases = [("one vector, shape (3,)", (3,)), ("one vector, shape (1, 3)", (1, 3)), ("two vectors", (2, 3)), ("three vectors", (3, 3))]
     for label, shape in cases:
         a = sym_array("a", shape)
